@@ -1,10 +1,10 @@
 CONSTANTS
-  MaxRoots = 2
+  MaxRoots = 3
   MaxViews = 1
   MaxElems = 2
-  Depth = 4
+  Depth = 5
   Flags = FALSE
-  Rich = FALSE
+  Rich = TRUE
 INIT Init
 NEXT Next
 VIEW HView
